@@ -9,8 +9,10 @@
         up to the first closing quote that is followed by blanks and (end of text | comma, spaces), or the
         shortest comma-free text followed by the same tail; findall.
      CHARSET_RE : semicolon, white space, charset= (ignoring case), then everything up to the next semicolon; search.
-     _PARAM_RE : alphanumeric name, equals, then a double-quoted text without inner quote or a possibly empty
-        run of [a-z0-9_.-]; ignoring case; finditer. *)
+     _PARAM_RE (as repaired by fixes/C12-15): token name, equals, then a double-quoted text in which a backslash
+        takes the next character with it (quoted-pair), or a possibly empty run of [a-z0-9_.-]; ignoring case;
+        finditer.  The getter removes the backslash of every quoted-pair; the setter quotes a value unless
+        _OK_PARAM_RE accepts it, escaping backslash and double quote. *)
 From Coq Require Import ZArith NArith List Bool.
 Require Import Webob.Lib.Val Webob.Lib.PyStr Webob.Lib.C12_PyInt Webob.Model.C12_Headers
                Webob.Model.C12_ByteRange Webob.Model.C12_CacheControl.
@@ -221,6 +223,45 @@ Definition rct_set (dcs : str) (v : pyv) (hl : pairs) : pairs * option str :=
 (* Response.content_type_params *)
 Definition is_alnum (c : N) : bool := is_alpha c || ((48 <=? c) && (c <=? 57)).
 Definition is_pvalue (c : N) : bool := is_alnum c || (c =? 95) || (c =? 46) || (c =? 45).
+(* RFC 7230 tchar: the characters of a parameter name *)
+Definition is_pkey (c : N) : bool :=
+  is_alnum c || mem_n c [33; 35; 36; 37; 38; 39; 42; 43; 45; 46; 94; 95; 96; 124; 126].
+
+(* the body of a quoted-string after the opening quote: characters other than quote and backslash, or a
+   backslash with the next character (not LF); raw body (escapes kept) and the rest after the closing quote *)
+Fixpoint quoted_esc (fuel : nat) (s : str) : option (str * str) :=
+  match fuel with
+  | O => None
+  | S f =>
+      match s with
+      | [] => None
+      | c :: s' =>
+          if c =? 34 then Some ([], s')
+          else if c =? 92 then
+            match s' with
+            | d :: s'' => if d =? 10 then None
+                          else match quoted_esc f s'' with Some (b, r) => Some (c :: d :: b, r) | None => None end
+            | [] => None
+            end
+          else match quoted_esc f s' with Some (b, r) => Some (c :: b, r) | None => None end
+      end
+  end.
+(* _QUOTED_PAIR_RE.sub: drop the backslash of each quoted-pair (a backslash before LF or at the end stays) *)
+Fixpoint unescape (fuel : nat) (s : str) : str :=
+  match fuel with
+  | O => s
+  | S f =>
+      match s with
+      | [] => []
+      | c :: s' =>
+          if c =? 92 then
+            match s' with
+            | d :: s'' => if d =? 10 then c :: unescape f s' else d :: unescape f s''
+            | [] => [c]
+            end
+          else c :: unescape f s'
+      end
+  end.
 Fixpoint param_scan (fuel : nat) (s : str) : list (str * str) :=
   match fuel with
   | O => []
@@ -228,16 +269,16 @@ Fixpoint param_scan (fuel : nat) (s : str) : list (str * str) :=
       match s with
       | [] => []
       | c :: s' =>
-          if is_alnum c then
-            let '(nm, r0) := span is_alnum s in
+          if is_pkey c then
+            let '(nm, r0) := span is_pkey s in
             match r0 with
             | e :: r1 =>
                 if e =? 61 then
                   match r1 with
                   | q :: r2 =>
                       if q =? 34 then
-                        match quoted r2 with
-                        | Some (b, rest) => (nm, b) :: param_scan f rest
+                        match quoted_esc (S (length r2)) r2 with
+                        | Some (b, rest) => (nm, unescape (S (length b)) b) :: param_scan f rest
                         | None => (nm, []) :: param_scan f r1
                         end
                       else let '(v, rest) := span is_pvalue r1 in (nm, v) :: param_scan f rest
@@ -270,7 +311,8 @@ Fixpoint insert_kv (kv : str * str) (l : list (str * str)) : list (str * str) :=
   end.
 Definition param_str (kv : str * str) : str :=
   let v := snd kv in
-  [59; 32] ++ fst kv ++ [61] ++ (if ok_param v then v else [34] ++ replace_c 34 [92; 34] v ++ [34]).
+  [59; 32] ++ fst kv ++ [61] ++
+  (if ok_param v then v else [34] ++ replace_c 34 [92; 34] (replace_c 92 [92; 92] v) ++ [34]).
 Definition rparams_set (v : pyv) (hl : pairs) : pairs * option str :=
   match v with
   | PNone | PAuth _ [] => (rparams_del hl, None)
